@@ -179,6 +179,8 @@ def substitute_function(fn) -> int:
                     free.add(d)
             if name in {f.split(".")[0] for f in free}:
                 continue
+            # only the maximal paths are what the value reads (`self.records` reads self.records, not all of `self`)
+            free = {f for f in free if not any(g != f and g.startswith(f + ".") for g in free)}
             # nothing the value reads is re-bound anywhere in the function (the alias itself is the one allowed store)
             clash = False
             # a free NAME that has exactly one definition, placed before the alias, holds one value for the alias's whole life
@@ -188,6 +190,12 @@ def substitute_function(fn) -> int:
                     dst = next((x for x in _own_nodes(fn) if isinstance(x, ast.Assign) and any(isinstance(y, ast.Name) and y.id == f and isinstance(y.ctx, ast.Store)
                                                                                                for t_ in x.targets for y in ast.walk(t_))), None)
                     if dst is not None and (dst.lineno, dst.col_offset) < (st.lineno, st.col_offset):
+                        single_before.add(f)
+            # the same for an attribute path set up once earlier in the function (self.records = []; members = self.records)
+            for f in free:
+                if "." in f:
+                    sts = [x for x in _own_nodes(fn) if isinstance(x, ast.Attribute) and isinstance(x.ctx, ast.Store) and dotted(x) == f]
+                    if len(sts) == 1 and (sts[0].lineno, sts[0].col_offset) < (st.lineno, st.col_offset):
                         single_before.add(f)
             for s_ in stored:
                 if s_ == name or s_ in single_before:
